@@ -127,12 +127,15 @@ def known_z3(ob, eng, kf, tags=None):
     vals = {n: SInt(v) for n, v in eng.vars.items()}
     vals.update(tags or {})
     eng.lazy_depth += 1
+    saved = core.ENG
+    core.ENG = eng
     try:
         r = eval(kf["pred"], _pred_ns(vals, True))
     except (_Missing, TypeError):
         return z3.BoolVal(False)
     finally:
         eng.lazy_depth -= 1
+        core.ENG = saved
     if isinstance(r, SBool):
         return r.z
     return z3.BoolVal(bool(r))
